@@ -3,6 +3,7 @@ package main
 import (
 	"fmt"
 	"go/token"
+	"go/types"
 	"sort"
 	"strings"
 
@@ -223,4 +224,159 @@ func init() {
 		}
 		return 0
 	}
+}
+
+// STATE-CLOSE (C13): typestate of collectors with a closing flag. A struct with a bool field that some function tests
+// in order to panic ("checker already closed", "called WithCommitment recursively") is a collector that must be closed
+// by its finaliser: otherwise items appended after the finaliser ran are never processed (a range check that is never
+// emitted). Rule: in every function that stores true into such a flag (directly, or in a closure it defers), every
+// path from the entry to a return passes the store / the defer registration, or the true edge of a test of the flag
+// itself (already closed).
+func RunStateClose(p *Prog, r *Report, scope func(string) bool) {
+	type flag struct {
+		strct string
+		field string
+	}
+	flagOf := func(v ssa.Value) (flag, bool) {
+		fa, ok := v.(*ssa.FieldAddr)
+		if !ok {
+			return flag{}, false
+		}
+		if b, ok := fa.Type().Underlying().(*types.Pointer); !ok || !isBoolType(b.Elem()) {
+			return flag{}, false
+		}
+		n := namedName(fa.X.Type())
+		if n == "" {
+			return flag{}, false
+		}
+		return flag{n, fieldName(fa.X.Type(), fa.Field)}, true
+	}
+	// guard flags: tested by an If whose true successor panics
+	guards := map[flag]bool{}
+	var fns []*ssa.Function
+	for _, fn := range p.Funcs {
+		pk := FuncPkg(fn)
+		if pk == nil || fn.Blocks == nil || !scope(pk.Path()) {
+			continue
+		}
+		fns = append(fns, fn)
+		for _, b := range fn.Blocks {
+			iff, ok := lastInstr(b).(*ssa.If)
+			if !ok {
+				continue
+			}
+			u, ok := iff.Cond.(*ssa.UnOp)
+			if !ok || u.Op != token.MUL {
+				continue
+			}
+			f, ok := flagOf(u.X)
+			if !ok {
+				continue
+			}
+			if _, isPanic := lastInstr(b.Succs[0]).(*ssa.Panic); isPanic {
+				guards[f] = true
+			}
+		}
+	}
+	sort.Slice(fns, func(i, j int) bool { return FuncName(fns[i]) < FuncName(fns[j]) })
+	storesTrue := func(fn *ssa.Function) map[flag][]*ssa.BasicBlock {
+		out := map[flag][]*ssa.BasicBlock{}
+		for _, b := range fn.Blocks {
+			for _, ins := range b.Instrs {
+				st, ok := ins.(*ssa.Store)
+				if !ok {
+					continue
+				}
+				c, ok := st.Val.(*ssa.Const)
+				if !ok || c.Value == nil || c.Value.String() != "true" {
+					continue
+				}
+				if f, ok := flagOf(st.Addr); ok && guards[f] {
+					out[f] = append(out[f], b)
+				}
+			}
+		}
+		return out
+	}
+	n := 0
+	seen := map[string]bool{}
+	for _, fn := range fns {
+		if fn.Parent() != nil {
+			continue
+		}
+		closeBlocks := storesTrue(fn)
+		// deferred closures that store the flag
+		for _, b := range fn.Blocks {
+			for _, ins := range b.Instrs {
+				d, ok := ins.(*ssa.Defer)
+				if !ok {
+					continue
+				}
+				if mc, ok := d.Call.Value.(*ssa.MakeClosure); ok {
+					if cf, ok := mc.Fn.(*ssa.Function); ok {
+						for f := range storesTrue(cf) {
+							closeBlocks[f] = append(closeBlocks[f], b)
+						}
+					}
+				}
+			}
+		}
+		for f, blks := range closeBlocks {
+			key := "closes:" + f.strct + "." + f.field
+			k := Abstract(FuncName(fn)) + "|" + key
+			if seen[k] {
+				continue
+			}
+			seen[k] = true
+			n++
+			w := map[*ssa.BasicBlock]bool{}
+			for _, b := range blks {
+				w[b] = true
+			}
+			// the true edge of a test of the flag itself: already closed (edge-, not block-sensitive: with
+			// `if c.closed || other { return }` both conditions share the return block)
+			skip := map[[2]*ssa.BasicBlock]bool{}
+			for _, b := range fn.Blocks {
+				if iff, ok := lastInstr(b).(*ssa.If); ok {
+					if u, ok := iff.Cond.(*ssa.UnOp); ok && u.Op == token.MUL {
+						if g, ok := flagOf(u.X); ok && g == f {
+							skip[[2]*ssa.BasicBlock{b, b.Succs[0]}] = true
+						}
+					}
+				}
+			}
+			if exitAvoidingEdges(fn, w, skip) {
+				r.Fail("STATE-CLOSE", FuncPkg(fn).Path(), FuncName(fn), key, p.Pos(FuncPos(fn)), "some return of the finaliser is reached without marking the collector closed: items added afterwards are accepted silently and never processed")
+			} else {
+				r.Pass("STATE-CLOSE", FuncPkg(fn).Path(), FuncName(fn), key, p.Pos(FuncPos(fn)), "every return of the finaliser marks the collector closed (or it was closed already)", true)
+			}
+		}
+	}
+	if n < 2 {
+		r.Fail("UNRESOLVED", "-", "-", "state-close", "-", fmt.Sprintf("%d closing-flag finalisers found, confirmed 2 (commitChecker.commit, multicommitter.commitAndCall)", n))
+	}
+}
+
+// exitAvoidingEdges: some return is reachable from the entry without entering a block of w and without taking an
+// edge of skip.
+func exitAvoidingEdges(fn *ssa.Function, w map[*ssa.BasicBlock]bool, skip map[[2]*ssa.BasicBlock]bool) bool {
+	seen := map[*ssa.BasicBlock]bool{}
+	work := []*ssa.BasicBlock{fn.Blocks[0]}
+	for len(work) > 0 {
+		b := work[len(work)-1]
+		work = work[:len(work)-1]
+		if seen[b] || w[b] {
+			continue
+		}
+		seen[b] = true
+		if _, ok := lastInstr(b).(*ssa.Return); ok {
+			return true
+		}
+		for _, s := range b.Succs {
+			if !skip[[2]*ssa.BasicBlock{b, s}] {
+				work = append(work, s)
+			}
+		}
+	}
+	return false
 }
